@@ -1443,6 +1443,100 @@ def run_overlapping_terms(rep, rng, thorough):
                         rep.oracle_failures.append(bad)
 
 
+# ----------------------------------------------------------------------------- deep trees in solved NLP problems
+
+DEEP_RHS = ["CAP-50*r", "a-(b-c)", "a-(b+c)", "-(a-b)", "CAP-(r-(x0-1))", "lhs-(r-2)<=c", "CAP-50*r+0", "(CAP-r)-(x1-r)"]
+
+
+def deep_case(data):
+    """a loop-built sum of N (>= 400) terms as the left-hand side of a constraint of a problem solved through the NLP
+    path, with right-hand sides that are differences / nested subtractions; also the deep sum inside the objective.
+    -> (problem, truth(values) -> lhs - rhs as plain Python floats)"""
+    from optyx import Problem, Variable
+
+    N = data["N"]
+    xs = [Variable(f"x{i}", lb=0.0, ub=10.0) for i in range(4)]
+    r = Variable("r", lb=0.0, ub=10.0)
+    w = data["w"]
+    load = xs[0] * w[0]
+    for k in range(1, N):
+        load = load + w[k % len(w)] * xs[k % 4] if not data["sub_terms"] or k % 7 else load - (-w[k % len(w)]) * xs[k % 4]
+    tl = lambda v: sum(w[k % len(w)] * v[f"x{k % 4}"] for k in range(N))  # noqa: E731
+    CAP = data["cap"]
+    form = data["rhs"]
+    X = lambda v, i: v[f"x{i}"]  # noqa: E731
+    table = {
+        "CAP-50*r": (lambda: (load, CAP - 50 * r), lambda v: tl(v) - (CAP - 50 * v["r"])),
+        "a-(b-c)": (lambda: (load, CAP - (r - xs[0])), lambda v: tl(v) - (CAP - (v["r"] - X(v, 0)))),
+        "a-(b+c)": (lambda: (load, CAP - (r + xs[1])), lambda v: tl(v) - (CAP - (v["r"] + X(v, 1)))),
+        "-(a-b)": (lambda: (load, -(r - CAP)), lambda v: tl(v) - (-(v["r"] - CAP))),
+        "CAP-(r-(x0-1))": (lambda: (load, CAP - (r - (xs[0] - 1.0))), lambda v: tl(v) - (CAP - (v["r"] - (X(v, 0) - 1.0)))),
+        "lhs-(r-2)<=c": (lambda: (load - (r - 2.0), CAP), lambda v: tl(v) - (v["r"] - 2.0) - CAP),
+        "CAP-50*r+0": (lambda: (load, CAP - 50 * r + 0.0), lambda v: tl(v) - (CAP - 50 * v["r"])),
+        "(CAP-r)-(x1-r)": (lambda: (load, (CAP - r) - (xs[1] - r)), lambda v: tl(v) - ((CAP - v["r"]) - (X(v, 1) - v["r"]))),
+    }
+    build, truth = table[form]
+    lhs, rhs = build()
+    P = Problem()
+    t = data["targets"]
+    obj = (r - data["tr"]) ** 2
+    for i in range(4):
+        obj = obj + (xs[i] - t[i]) ** 2
+    if data["deep_objective"]:
+        obj = obj + 1e-3 * load
+    P.minimize(obj)
+    P.subject_to(lhs <= rhs if data["sense"] == "<=" else lhs >= rhs)
+    return P, truth
+
+
+def deep_check(data):
+    try:
+        P, truth = deep_case(data)
+    except RecursionError:
+        return None, "unbuildable:RecursionError"
+    with warnings.catch_warnings(), np.errstate(all="ignore"):
+        warnings.simplefilter("ignore")
+        try:
+            sol = P.solve(method=data["method"])
+        except Exception as e:  # noqa: BLE001
+            return None, "raise:" + type(e).__name__
+    if sol.status.name != "OPTIMAL":
+        return None, sol.status.name
+    g = float(truth(sol.values))
+    viol = max(0.0, g) if data["sense"] == "<=" else max(0.0, -g)
+    if not viol <= 1e-6 + RTOL * max(1.0, abs(g)) + 1e-7:
+        return {"what": "deep constraint (plain-Python evaluation of the user's lhs and rhs) violated at the returned point",
+                "lhs_minus_rhs": g, "values": dict(sol.values)}, "OPTIMAL"
+    for k, v in sol.values.items():
+        if v < -3e-6 or v > 10.0 + 3e-5:
+            return {"what": f"bound of {k} violated", "values": dict(sol.values)}, "OPTIMAL"
+    return None, "OPTIMAL"
+
+
+def run_deep_nlp(rep, rng, thorough):
+    i = 0
+    for form in DEEP_RHS:
+        for sense in ("<=", ">="):
+            for method in ("auto", "SLSQP", "trust-constr"):
+                i += 1
+                if not thorough and (i + len(form)) % 2:
+                    continue
+                N = [450, 400, 600, 401, 399][i % 5]
+                data = {"N": N, "w": [rng.choice([1.0, 2.0, 0.5, 1.5]) for _ in range(5)], "rhs": form, "sense": sense,
+                        "method": method, "cap": rng.choice([900.0, 1500.0, 2500.0]) if sense == "<=" else rng.choice([300.0, 900.0]),
+                        "targets": [rng.choice([8.0, 9.0, 6.0]) if sense == "<=" else rng.choice([0.0, 0.5, 1.0]) for _ in range(4)],
+                        "tr": rng.choice([1.0, 4.0, 9.0]), "deep_objective": bool(i % 3 == 0), "sub_terms": bool(i % 2)}
+                bad, status = deep_check(data)
+                rep.evaluations += 1
+                tag = f"deep-nlp:{form}:{status}"
+                rep.histogram[tag] = rep.histogram.get(tag, 0) + 1
+                if status == "OPTIMAL":
+                    rep.nontrivial.add(hash(("deep", str(data))))
+                if bad is not None:
+                    bad.update({"kind_of_case": "deep", "data": data})
+                    rep.oracle_failures.append(bad)
+
+
 # ----------------------------------------------------------------------------- histories: edits between solves
 
 
@@ -1614,6 +1708,7 @@ def run(ctx) -> core.Report:
     run_magnitudes_types(rep, rng, thorough)
     run_container_constraints(rep, rng, thorough)
     run_overlapping_terms(rep, rng, thorough)
+    run_deep_nlp(rep, rng, thorough)
     run_feasibility_histories(rep, rng, thorough)
     run_real_solves(rep, rng, 700 if thorough else 90, check_feasible)
     return rep
@@ -1659,6 +1754,9 @@ def search(ctx, rep):
     run_overlapping_terms(r2, rng, False)
     if r2.oracle_failures:
         return r2.oracle_failures[0]
+    run_deep_nlp(r2, rng, False)
+    if r2.oracle_failures:
+        return r2.oracle_failures[0]
     run_operator_alphabet(r2, rng, False)
     if r2.oracle_failures:
         return r2.oracle_failures[0]
@@ -1689,9 +1787,9 @@ def replay(payload) -> bool:
         bad = feasibility_report(P, sol.values, c["tol"])
         print("feasibility:", bad)
         return bad is None
-    if f.get("kind_of_case") in ("magnitude", "container", "fhistory", "overlap"):
+    if f.get("kind_of_case") in ("magnitude", "container", "fhistory", "overlap", "deep"):
         fn = {"magnitude": magnitude_case, "container": container_check, "fhistory": feasibility_history,
-              "overlap": overlap_check}[f["kind_of_case"]]
+              "overlap": overlap_check, "deep": deep_check}[f["kind_of_case"]]
         bad, status = fn(f["data"])
         print(status, bad)
         return bad is None
